@@ -278,7 +278,7 @@ impl MultiProp {
         let mut p = GenParams::standard();
         match self.id {
             "C08" => {
-                p.kinds = vec![(K::Cumulative, 10), (K::BinLe, 2), (K::BinLt, 1), (K::BinNe, 2), (K::LinLe, 1)];
+                p.kinds = vec![(K::Cumulative, 10), (K::BinLe, 2), (K::BinLt, 1), (K::BinNe, 2), (K::LinLe, 1), (K::PredClause, 2)];
                 p.min_cons = 1;
                 p.max_cons = 3;
                 p.mode_permille = 60;
